@@ -62,7 +62,7 @@ from vgi_rpc.rpc._common import (
     _record_input,
     _record_output,
 )
-from vgi_rpc.utils import ArrowSerializableDataclass, ValidatedReader, empty_batch, new_ipc_stream
+from vgi_rpc.utils import ArrowSerializableDataclass, IPCError, ValidatedReader, empty_batch, new_ipc_stream
 
 from .._common import _RpcHttpError
 from ._responses import _current_response_status, _enforce_response_budgets
@@ -515,7 +515,19 @@ def _run_stream_exchange_sync(
         try:
             req_reader = ValidatedReader(ipc.open_stream(stream), app._server.ipc_validation)
             input_batch, custom_metadata = req_reader.read_next_batch_with_custom_metadata()
-        except pa.ArrowInvalid as exc:
+        except StopIteration as exc:
+            # A well-formed stream that ends after its schema: nothing to exchange.
+            raise _RpcHttpError(
+                RuntimeError("Exchange request stream contains no batch"),
+                status_code=HTTPStatus.BAD_REQUEST,
+            ) from exc
+        except (pa.ArrowException, OSError, IPCError) as exc:
+            # The stream is the in-memory request body, so every failure to
+            # parse it is the caller's: pyarrow reports damaged framing as
+            # OSError (ArrowIOError) and unknown types / dictionary ids as
+            # ArrowNotImplementedError / ArrowKeyError, not only ArrowInvalid,
+            # and ValidatedReader reports a batch that fails validation as
+            # IPCError.
             raise _RpcHttpError(exc, status_code=HTTPStatus.BAD_REQUEST) from exc
 
         # Extract both tokens before resolution — resolve_external_location
